@@ -941,8 +941,8 @@ func (hv *Hash) Reflect(c px.Context) reflect.Value {
 	for _, e := range hv.entries {
 		var rv reflect.Value
 		if e.value == undef && isNilAndUnknown(valueType) {
-			// Putting nil into map causes reflect.SetMapIndex to delete the entry.
-			rv = reflect.ValueOf(undef)
+			// Passing the invalid Value causes reflect.SetMapIndex to delete the entry. The nil interface{} keeps it.
+			rv = reflect.Zero(valueType)
 		} else {
 			rv = rf.Reflect2(e.value, valueType)
 		}
@@ -970,8 +970,8 @@ func (hv *Hash) ReflectTo(c px.Context, value reflect.Value) {
 	for _, e := range hv.entries {
 		var rv reflect.Value
 		if e.value == undef && isNilAndUnknown(valueType) {
-			// Putting nil into map causes reflect.SetMapIndex to delete the entry.
-			rv = reflect.ValueOf(undef)
+			// Passing the invalid Value causes reflect.SetMapIndex to delete the entry. The nil interface{} keeps it.
+			rv = reflect.Zero(valueType)
 		} else {
 			rv = rf.Reflect2(e.value, valueType)
 		}
